@@ -280,6 +280,8 @@ func ghostKind(sort string) Kind {
 		return KReal
 	case "Str":
 		return KStr
+	case "(Array Int Int)":
+		return KArr
 	}
 	return KInt
 }
